@@ -128,3 +128,9 @@ Theorem include_stack_restored : forall fuel files items st,
   Compiler.Includes.run_items include_stack_balanced fuel files items st = st.
 Proof. rewrite include_stack_push_pop_balanced. exact Compiler.IncludesProofs.include_stack_restored_gen. Qed.
 Print Assumptions include_stack_restored.
+
+(* the diagnostics of what follows an `include` are attributed to the including source whether or not the
+   included file had errors: its source id is restored on the only path through the include arm *)
+Theorem include_restores_the_source_id : include_restores_source_id = true.
+Proof. vm_compute. reflexivity. Qed.
+Print Assumptions include_restores_the_source_id.
